@@ -51,8 +51,8 @@ CONSISTENT = frozenset(chr(48 + c) for c in range(32)
 class C14(Prop):
     id = "C14"
     lean_module = "ProductMD.Properties.C14"
-    quick_budget = 2600
-    thorough_budget = 40000
+    quick_budget = 6000
+    thorough_budget = 120000
     exhaustive = True
     rule = ("predicates: EVERY string of length <= 6 (quick) / <= 8 (thorough) over the 8-symbol alphabet {a,A,1,-,.,@,_,LF} through the real "
             "is_valid_release_short/_version/_type, a Python transcription of the documented languages (oracle) and the Lean model and Lean "
@@ -132,6 +132,13 @@ class C14(Prop):
         for which, s in (("short", "f\n"), ("type", "ga\n"), ("version", "1\n"), ("version", "a\nb")):
             out.append({"op": "pred", "args": {"which": which, "s": s}})
         out.append(self.rt_case("my-prod", "1.0", "ga"))
+        # (1b) the exhaustive enumeration, in 9 blocks (the empty string, then by first character).  NB the pipeline stops
+        # consuming cases once more than 50 failures (known ones included) have accumulated at a 2000-case boundary, so the
+        # blocks come early and the generators below keep the number of cases inside F9/F15 small (each is a known failure).
+        maxlen = 8 if tier == "thorough" else 6
+        out.append({"op": "pred_block", "args": {"alphabet": ALPHABET, "prefix": "", "n": 0}})
+        for a in ALPHABET:
+            out.append({"op": "pred_block", "args": {"alphabet": ALPHABET, "prefix": a, "n": maxlen - 1}})
         # (2) round trips
         n_rt = budget * 5 // 10
         out.extend(self.targeted_from_table(types))
@@ -147,19 +154,17 @@ class C14(Prop):
         # (4) parse on arbitrary identifiers (correspondence of the parser model)
         out.extend(self.gen_parse(rng, types, budget * 2 // 10, tier))
         # (5) predicates on random longer strings over a wider alphabet
-        wide = "abcxyz0123456789-..@_AZ \n\té٣+~"
+        wide = "abcxyz0123456789-..@_AZ \té٣+~"
+        n_nl = 0
         for i in range(budget // 10):
             n = rng.randint(7, 24)
             base = rng.choice(["", "f", "fedora-", "1.", "23", "a-", "rhel-7"])
             s = base + "".join(rng.choice(wide if rng.random() < 0.3 else "abz09-.") for _ in range(n))
-            if rng.random() < 0.2:
-                s += "\n"
+            if n_nl < 9 and rng.random() < 0.2:     # a few long strings in the F15 region (the blocks cover it exhaustively)
+                n_nl += 1
+                k = rng.choice([len(s), len(s), rng.randint(0, len(s))])
+                s = s[:k] + "\n" + s[k:]
             out.append({"op": "pred", "args": {"which": PREDS[i % 3], "s": s}})
-        # (6) the exhaustive enumeration, in blocks by first character (last: their real output is large)
-        maxlen = 8 if tier == "thorough" else 6
-        out.append({"op": "pred_block", "args": {"alphabet": ALPHABET, "prefix": "", "n": 0}})
-        for a in ALPHABET:
-            out.append({"op": "pred_block", "args": {"alphabet": ALPHABET, "prefix": a, "n": maxlen - 1}})
         return out
 
     SHORT_SEGS = ["f", "fedora", "rhel", "a1", "x", "prod", "my", "z9z", "ga", "fast", "eus", "updates", "testing", "e4s", "b2c3"]
